@@ -3,6 +3,8 @@ import numpy as np
 
 from vmon import diff, gen, instr, models, oracles, scen
 
+from vmon.scale import S
+
 ID = 'C04'
 RULE = ('cases = pairs (y, c*y) with per-observation gain fields 1e-100 <= |c| <= 1e100 and arbitrary phase (positive real '
         'gains for the vMF families) pushed through the same entry point: mixture fit/predict/log_likelihood (per '
@@ -19,7 +21,7 @@ GK = ['iid', 'ramp', 'alternate', 'extreme_one']
 
 def plan(tier, seed):
     rng = np.random.default_rng([seed, 104])
-    n = 26 if tier == 'quick' else 260
+    n = S(tier, 26, 260)
     pick = lambda xs: xs[int(rng.integers(len(xs)))]
     cases, i = [], 0
     for kind in models.KINDS:
@@ -43,7 +45,7 @@ def plan(tier, seed):
             cases.append(dict(lane='mixture', kind=kind, cls='gauss', K=K, N=N, D=D, lead=lead, init=pick(['dirichlet:1', 'blur:0.3', 'onehot', 'num_classes']),
                               iters=iters, opts=o, gain=pick(GK), decades=float(pick([100, 100, 60, 30])), stream=stream, rs=[seed, 4, i]))
             i += 1
-    m = 25 if tier == 'quick' else 250
+    m = S(tier, 25, 250)
     for fam in ('cacg', 'watson', 'bingham', 'vmf'):
         for r in range(m if fam != 'bingham' else max(5, m // 4)):
             D = int(rng.integers(2, 9)) if fam != 'bingham' else int(rng.integers(2, 6))
@@ -87,9 +89,10 @@ def run_mixture(case, R):
                 post = models.predict(kind, model, data, **pk)
                 # log_likelihood has no mask argument: only meaningful for fits without a mask
                 ll = float(model.log_likelihood(data['y'])) if (kind == 'cacgmm' and s.mask is None) else None
+                fp = scen.fit_predict(s2)
         except Exception as e:
             return ('raised', type(e).__name__, str(e)[:100])
-        return ('ok', model, post, ev, ll)
+        return ('ok', model, post, ev, ll, fp)
 
     res = [run(s.data), run(d2)]
     noise = {}
@@ -128,10 +131,26 @@ def run_mixture(case, R):
         R.undecided('C04.posterior', 'both calls raised')
         return
     if res[0][0] != res[1][0]:
+        # is raising decided by rounding (numerically singular scatter / covariance)? replicas of the base call tell
+        flips = 0
+        for rep in range(4):
+            rr = np.random.default_rng([*case['rs'], 5, rep])
+            dd = dict(s.data)
+            dd['y'] = s.data['y'] * (1 + 2.0 ** -50 * rr.uniform(-1, 1, size=s.data['y'].shape))
+            flips += run(dd)[0] != res[0][0]
+        exc = res[0][1] if res[0][0] == 'raised' else res[1][1]
+        msg = res[0][2] if res[0][0] == 'raised' else res[1][2]
+        if flips or exc == 'LinAlgError' or 'ill-defined' in msg or (exc == 'AssertionError' and 'e-1' in msg):
+            # numerically singular scatter / covariance: eigenvalues of +-1e-17 decide whether the library's own checks raise
+            R.undecided('C04.posterior', 'raising is decided by rounding (numerically singular scatter)')
+            return
         R.fail('C04.posterior', f'raise-asymmetry/{kind}', f'{kind}: one of (y, c*y) raised {res[0][1:] if res[0][0]=="raised" else res[1][1:]}, the other returned', opts=case['opts'])
         return
-    _, m1, p1, ev1, l1 = res[0]
-    _, m2, p2, ev2, l2 = res[1]
+    _, m1, p1, ev1, l1, f1 = res[0]
+    _, m2, p2, ev2, l2, f2 = res[1]
+    dfp = float(np.abs(f1 - f2).max())
+    judge('C04.posterior', dfp, tol_post, 'post', f'fit_predict/{kind}/{case["stream"]}', f'{kind}.fit_predict changes by {dfp:.3e} under per-observation rescaling ({case["stream"]} stream)',
+          dev=dfp, opts=case['opts'], gain=case['gain'])
     dev = float(np.abs(p1 - p2).max())
     judge('C04.posterior', dev, tol_post, 'post', f'posterior/{kind}/{case["stream"]}', f'{kind}: posterior changes by {dev:.3e} under per-observation rescaling ({case["stream"]} stream)',
           dev=dev, opts=case['opts'], gain=case['gain'])
